@@ -397,3 +397,138 @@ fn c03_cond_select() {
     assert!(matches!(r, Ok(Value::Integer(v)) if v == want), "C03 ?: selects the second operand iff the first is non-zero");
     kani::cover!(c < 0, "negative condition reachable");
 }
+
+// ---------------------------------------------------------------------------------------------
+// Compound assignment and ++ / -- on VARIABLES.
+//
+// `apply_binary` (compound arm), `apply_prefix` / `apply_postfix` (increment / decrement) read the
+// variable through `expand_variable` (str::parse of the stored text) and write it back through
+// `assign` (Value::to_string). Both conversions are integer <-> text formatting, which CBMC does
+// not finish on symbolic values; they are stubbed by their contract: the variable holds the
+// (symbolic) integer VAR_VALUE, and an assignment records the assigned integer. What is decided is
+// everything in between: which kernel runs with which operands in which order, what is assigned,
+// what is returned, and that an error assigns nothing.
+
+static mut VAR_VALUE: i64 = 0;
+static mut ASSIGNED: u8 = 0;
+static mut ASSIGNED_VALUE: i64 = 0;
+
+fn expand_variable_sym<E: crate::env::Env>(
+    _name: &str,
+    _location: &std::ops::Range<usize>,
+    _env: &E,
+) -> Result<Value, super::Error<E::GetVariableError, E::AssignVariableError>> {
+    Ok(Value::Integer(unsafe { VAR_VALUE }))
+}
+
+fn assign_rec<E: crate::env::Env>(
+    _name: &str,
+    value: Value,
+    _location: std::ops::Range<usize>,
+    _env: &mut E,
+) -> Result<Value, super::Error<E::GetVariableError, E::AssignVariableError>> {
+    let Value::Integer(v) = value;
+    unsafe {
+        ASSIGNED += 1;
+        ASSIGNED_VALUE = v;
+    }
+    Ok(value)
+}
+
+fn compound(ops: &[(BinaryOperator, BinaryOperator)], bounded: bool) {
+    let l: i64 = kani::any();
+    let r: i64 = kani::any();
+    if bounded {
+        let small = |v: i64| (-256..=255).contains(&v) || v == i64::MIN || v == i64::MIN + 1 || v == i64::MAX;
+        kani::assume(small(l) && small(r));
+    }
+    let k: usize = kani::any();
+    kani::assume(k < ops.len());
+    let (assign_op, plain_op) = ops[k];
+    unsafe {
+        VAR_VALUE = l;
+        ASSIGNED = 0;
+    }
+    let mut env = Rec { assigned_x: 0, assigned_y: 0, last_len: 0 };
+    let lhs = Term::Variable { name: "x", location: 0..1 };
+    let rhs = Term::Value(Value::Integer(r));
+    let got = super::apply_binary(lhs, rhs, assign_op, &(3..5), &mut env);
+    // the plain operator on the same operands (its exactness is decided by the kernel obligations)
+    let want = run(l, r, plain_op);
+    match (&got, &want) {
+        (Ok(Value::Integer(g)), Ok(Value::Integer(w))) => {
+            assert!(g == w, "C03 compound assignment yields the value of the plain operator");
+            assert!(unsafe { ASSIGNED == 1 && ASSIGNED_VALUE == *w }, "C03 compound assignment assigns exactly that value, once");
+        }
+        (Err(g), Err(w)) => {
+            assert!(std::mem::discriminant(&g.cause) == std::mem::discriminant(&w.cause), "C03 compound assignment reports the error of the plain operator");
+            assert!(unsafe { ASSIGNED == 0 }, "C03 a failed compound assignment assigns nothing");
+        }
+        _ => panic!("C03 compound assignment and plain operator disagree about success"),
+    }
+    kani::cover!(got.is_err(), "error reachable");
+    kani::cover!(got.is_ok(), "value reachable");
+}
+
+#[kani::proof]
+#[kani::unwind(4)]
+#[kani::stub(super::expand_variable, expand_variable_sym)]
+#[kani::stub(super::assign, assign_rec)]
+fn c03_compound_assign_linear() {
+    compound(
+        &[(AddAssign, Add), (SubtractAssign, Subtract), (BitwiseOrAssign, BitwiseOr), (BitwiseXorAssign, BitwiseXor),
+          (BitwiseAndAssign, BitwiseAnd), (ShiftLeftAssign, ShiftLeft), (ShiftRightAssign, ShiftRight)],
+        false,
+    );
+}
+
+#[kani::proof]
+#[kani::unwind(4)]
+#[kani::stub(super::expand_variable, expand_variable_sym)]
+#[kani::stub(super::assign, assign_rec)]
+fn c03_compound_assign_mul() {
+    compound(&[(MultiplyAssign, Multiply)], false);
+}
+
+#[kani::proof]
+#[kani::unwind(4)]
+#[kani::stub(super::expand_variable, expand_variable_sym)]
+#[kani::stub(super::assign, assign_rec)]
+fn c03_compound_assign_divrem_bounded() {
+    compound(&[(DivideAssign, Divide), (RemainderAssign, Remainder)], true);
+}
+
+/// ++x, --x, x++, x-- on a variable holding any i64.
+#[kani::proof]
+#[kani::unwind(4)]
+#[kani::stub(super::expand_variable, expand_variable_sym)]
+#[kani::stub(super::assign, assign_rec)]
+fn c03_incdec_on_variable() {
+    let v: i64 = kani::any();
+    let k: u8 = kani::any();
+    kani::assume(k < 4);
+    unsafe {
+        VAR_VALUE = v;
+        ASSIGNED = 0;
+    }
+    let mut env = Rec { assigned_x: 0, assigned_y: 0, last_len: 0 };
+    let term = Term::Variable { name: "x", location: 0..1 };
+    let loc = 3..5;
+    let res = match k {
+        0 => apply_prefix(term, PrefixOperator::Increment, &loc, &mut env),
+        1 => apply_prefix(term, PrefixOperator::Decrement, &loc, &mut env),
+        2 => apply_postfix(term, PostfixOperator::Increment, &loc, &mut env),
+        _ => apply_postfix(term, PostfixOperator::Decrement, &loc, &mut env),
+    };
+    let new = if k == 0 || k == 2 { v as i128 + 1 } else { v as i128 - 1 };
+    if new > i64::MAX as i128 || new < i64::MIN as i128 {
+        assert!(matches!(res, Err(ref e) if matches!(e.cause, EvalError::Overflow)), "C03 ++/-- past the edge is an overflow error");
+        assert!(unsafe { ASSIGNED == 0 }, "C03 a failed ++/-- assigns nothing");
+    } else {
+        let want = if k < 2 { new as i64 } else { v };
+        assert!(matches!(res, Ok(Value::Integer(r)) if r == want), "C03 prefix ++/-- yield the new value, postfix the old one");
+        assert!(unsafe { ASSIGNED == 1 && ASSIGNED_VALUE as i128 == new }, "C03 ++/-- assign the new value once");
+    }
+    kani::cover!(res.is_err(), "overflow reachable");
+    kani::cover!(res.is_ok() && k >= 2, "postfix reachable");
+}
